@@ -512,12 +512,11 @@ impl Factors {
                 continue;
             }
             let fP_A_cr = self.find(carrier, Source::RED, Dest::SUMINISTRO, Step::A)?;
-            let used_prod_ratio_sum = used_t
-                .iter()
-                .zip(prod.iter())
-                .map(|(us, pr)| if *pr > 0.0 { us / pr } else { 0.0 })
-                .sum::<f32>();
-            fP_exp_el_cgn_A += fP_A_cr * used_prod_ratio_sum;
+            // Relación entre el consumo anual para cogeneración y la electricidad cogenerada anual
+            let used_an = used_t.iter().sum::<f32>();
+            let prod_an = prod.iter().sum::<f32>();
+            let used_prod_ratio = if prod_an > 0.0 { used_an / prod_an } else { 0.0 };
+            fP_exp_el_cgn_A += fP_A_cr * used_prod_ratio;
         }
         Ok(Some(fP_exp_el_cgn_A))
     }
